@@ -1205,4 +1205,14 @@ mutual
           simp only [costAll, List.length_append]; omega
 end
 
+/-- the model's recursion budget covers the encoding of any value of that length -/
+theorem fuel_enough (v : Value) (e tail : Bytes) (hc : cost v + 1 ≤ 4 * e.length) :
+    cost v ≤ decodeFuel (e ++ tail).length := by
+  simp only [decodeFuel, List.length_append, MAX_ARRAY_COUNT]
+  have : 4 * e.length ≤ (e.length + tail.length + 1) * 65538 := by
+    calc 4 * e.length ≤ 65538 * e.length := by omega
+      _ ≤ 65538 * (e.length + tail.length + 1) := by apply Nat.mul_le_mul_left; omega
+      _ = (e.length + tail.length + 1) * 65538 := Nat.mul_comm _ _
+  omega
+
 end Amqp.Codec
